@@ -27,6 +27,51 @@ func init() {
 	pure.Register("C14", "withCount", c14Count)
 	pure.Register("C14", "withKeys", c14Keys)
 	pure.Register("C14", "withMatrix", c14Matrix)
+	pure.Register("C14", "index-set-fixed-after-admission", c14Update)
+}
+
+// c14Update: the index set a Job was admitted with is the one its tasks and status slots are
+// built for; every update that would change it (add, remove or alter the parallelism spec, in
+// any of its three forms) must be refused by update admission, started or not.
+func c14Update(c *pure.Ctx) {
+	v := newValidator()
+	two := int64(2)
+	three := int64(3)
+	specs := []struct {
+		name string
+		spec *execution.ParallelismSpec
+	}{
+		{"none", nil},
+		{"count2", &execution.ParallelismSpec{WithCount: &two, CompletionStrategy: execution.AllSuccessful}},
+		{"count3", &execution.ParallelismSpec{WithCount: &three, CompletionStrategy: execution.AllSuccessful}},
+		{"keys-a-b", &execution.ParallelismSpec{WithKeys: []string{"a", "b"}, CompletionStrategy: execution.AllSuccessful}},
+		{"keys-a", &execution.ParallelismSpec{WithKeys: []string{"a"}, CompletionStrategy: execution.AllSuccessful}},
+		{"matrix-x12", &execution.ParallelismSpec{WithMatrix: map[string][]string{"x": {"1", "2"}}, CompletionStrategy: execution.AllSuccessful}},
+		{"matrix-x1-y12", &execution.ParallelismSpec{WithMatrix: map[string][]string{"x": {"1"}, "y": {"1", "2"}}, CompletionStrategy: execution.AllSuccessful}},
+		{"count2-any", &execution.ParallelismSpec{WithCount: &two, CompletionStrategy: execution.AnySuccessful}},
+	}
+	now := metav1.Now()
+	for _, started := range []bool{false, true} {
+		for _, from := range specs {
+			for _, to := range specs {
+				if from.name == to.name {
+					continue
+				}
+				c.Eval()
+				old := c14Job(from.spec.DeepCopy(), nil)
+				upd := c14Job(to.spec.DeepCopy(), nil)
+				if started {
+					old.Status.StartTime, upd.Status.StartTime = &now, &now
+				}
+				desc := fmt.Sprintf("started=%v parallelism %s -> %s", started, from.name, to.name)
+				c.Nontrivial(desc)
+				if errs := v.ValidateJobUpdate(old, upd); len(errs) == 0 {
+					c.Violate("index-set-changed-by-update", desc+": the update was admitted")
+				}
+			}
+		}
+	}
+	c.Sample(map[string]interface{}{"specs": len(specs), "pairs": len(specs) * (len(specs) - 1) * 2})
 }
 
 func newValidator() *validation.Validator {
